@@ -13,6 +13,9 @@ import Verif.Drv.Recognisers
 import Verif.Drv.MainLoop
 import Verif.Drv.CloseLoop
 import Verif.Drv.LeafStore
+import Verif.Drv.Coalesce
+import Verif.Drv.LeafPos
+import Verif.Drv.BqCount
 
 /-- model name → request handler (one request line in, one answer line out). -/
 def models : List (String × (String → String)) :=
@@ -42,7 +45,10 @@ def models : List (String × (String → String)) :=
    ("closeloop", Verif.Drv.CloseLoop.step),
    ("leading", Verif.Drv.LeafStore.stepLeading),
    ("leading-legal", Verif.Drv.LeafStore.stepLegal),
-   ("fields", Verif.Drv.LeafStore.stepFields)]
+   ("fields", Verif.Drv.LeafStore.stepFields),
+   ("coalesce", Verif.Drv.Coalesce.step),
+   ("leafpos", Verif.Drv.LeafPos.step),
+   ("bqcount", Verif.Drv.BqCount.step)]
 
 partial def loop (h : IO.FS.Stream) (out : IO.FS.Stream) (f : String → String) : IO Unit := do
   let line ← h.getLine
